@@ -15,7 +15,7 @@
      solve_targets                                            the positions solve() will visit ([] when it rejects its arguments) *)
 From Coq Require Import ZArith List Bool PrimFloat.
 Import ListNotations.
-Require Import PyBase Solver SolverFacts SolverF SolveAll Tracer TracerSolve TracerNames TracerFacts TracerFacts2 TracerFacts3 TracerF TracerExamples.
+Require Import PyBase Solver SolverFacts SolverF SolveAll Tracer TracerSolve TracerNames TracerLinked TracerFacts TracerFacts2 TracerFacts3 TracerF TracerExamples.
 Open Scope Z_scope.
 
 Section C17.
@@ -385,6 +385,31 @@ Section C17.
     wf_trace num old = true -> reset = true \/ width_ok num old (length names) -> length res = length names ->
     wf_trace num (push num names reset old lab res) = true.
   Proof. exact (push_wf num names reset old lab res). Qed.
+  (* A TRACED MODEL AS A SUBMODEL OF A LINKER.  BaseLinker reaches a submodel only through `_evaluate(t, iteration=k, **kwargs)`,
+     once per linker pass (TracerLinked.v).  For passes k, k+1, .., k+n-1 over a tracer-extended submodel at a period where
+     trace_t cannot fail: erasing the Trace objects gives the passes over the plain submodel (values, the exception that
+     stopped them, raw); the store keeps its shape; only the period's own Trace moves; and it receives exactly one snapshot
+     per pass that returned, labelled with the pass number and holding the traced variables as that pass left them —
+     never 'start', 'before', 0 or 'end'. *)
+  Theorem C17_linked_submodel_passes cfg a reset t em cf n k (v : vals num) (tr : traces num) p :
+    shape_pres num ev -> truthy a = true ->
+    names_valid num v t (names_of cfg (length v) a) ->
+    py_pos (length tr) t = Some p ->
+    reset = true \/ width_ok num (nth p tr (empty_trace num)) (length (names_of cfg (length v) a)) ->
+    let R := linked_passes num cfg a reset ev t em cf k n v tr in
+    (fst (fst R), snd R) = plain_passes num ev t em cf k n v /\
+    shape num (fst (fst R)) = shape num v /\
+    length (snd (fst R)) = length tr /\
+    (forall q, q <> p -> nth q (snd (fst R)) (empty_trace num) = nth q tr (empty_trace num)) /\
+    nth p (snd (fst R)) (empty_trace num)
+    = pushes num (names_of cfg (length v) a) reset (nth p tr (empty_trace num))
+        (linked_entries num zero ev t em cf (names_of cfg (length v) a) k n v).
+  Proof. exact (fun H1 Ha => linked_passes_spec num zero cfg a reset ev H1 Ha t em cf n k v tr p). Qed.
+
+  Theorem C17_linked_submodel_labels t em cf names n k (v : vals num) :
+    exists m, (m <= n)%nat /\ map fst (linked_entries num zero ev t em cf names k n v) = map LIter (seq k m) /\
+              (snd (plain_passes num ev t em cf k n v) = None -> m = n).
+  Proof. exact (linked_entries_labels num zero ev t em cf names n k v). Qed.
 End C17.
 
 (* FINDING #16 (still present).  Without the width guard non-interference is false: valid names, t in the span,
@@ -421,6 +446,18 @@ Theorem C17_trace_stale_names_refuted :
     last (tr_values (nth p (snd (fst R)) (empty_trace float))) []
     = snap float fzero (vals_of (fst (fst R))) t (names_of cfg (length (vals_of s)) a).
 Proof. exact trace_stale_names_refuted. Qed.
+
+(* TracerMixin.__init__: DuplicateNameError iff TRACE_NAME is already in the container's index (a variable, 'status',
+   'iterations'); otherwise the name is appended to the index and every period gets an empty, well-formed Trace to which
+   any first snapshot can be appended. *)
+Theorem C17_tracer_init (num : Type) index trace_name n :
+  (In trace_name index -> tracer_init num index trace_name n = Raise DuplicateNameError) /\
+  (~ In trace_name index ->
+   exists tr, tracer_init num index trace_name n = Ret (index ++ [trace_name], tr) /\
+     length tr = n /\ (forall p, is_empty num (nth p tr (empty_trace num)) = true) /\
+     (forall p w, width_ok num (nth p tr (empty_trace num)) w) /\
+     (forall p, wf_trace num (nth p tr (empty_trace num)) = true)).
+Proof. exact (tracer_init_spec num index trace_name n). Qed.
 
 (* A TRACE IS A RECORD (fix cfb58ac: `names = list(names)` in trace_t; the earlier finding "Trace.names is the model's own
    names list" is repaired).  With Python's reference semantics explicit (TracerNames.v: list objects in a heap, trace= given
@@ -507,6 +544,9 @@ Print Assumptions C17_trace_of_run.
 Print Assumptions C17_trace_every_path.
 Print Assumptions C17_trace_reset_keeps_last_only.
 Print Assumptions C17_trace_width_mismatch_refuted.
+Print Assumptions C17_linked_submodel_passes.
+Print Assumptions C17_linked_submodel_labels.
+Print Assumptions C17_tracer_init.
 Print Assumptions C17_trace_names_fresh_copy.
 Print Assumptions C17_trace_names_is_the_value_traced.
 Print Assumptions C17_trace_names_survive_later_edits.
